@@ -147,6 +147,9 @@ class World:
                 return Num(Poly.sym(name), isinstance(v.v, int))
             if isinstance(v.v, str):
                 return Unk(name, "str")
+            if v.v is None and self._assigned_non_none(name):
+                # None in the default configuration, something else in others (fmt._comment_ending)
+                return Choice(name, "optional")
             return v
         if isinstance(v, Num):
             return Num(Poly.sym(name), v.is_int)
@@ -166,6 +169,25 @@ class World:
         if isinstance(v, ExtV):
             return Unk(name, "str")
         return v
+
+    def _assigned_non_none(self, name) -> bool:
+        """Does some method of the owning class assign `self.<field>` a value other than None?"""
+        label, _, field = name.rpartition(".")
+        try:
+            o = self.I.static_heap[self.ref(label).addr]
+        except AnalysisError:
+            return False
+        for ci in o.cls.mro():
+            for fn in ci.methods.values():
+                for n in ast.walk(fn.node):
+                    if isinstance(n, (ast.Assign, ast.AnnAssign)):
+                        targets = n.targets if isinstance(n, ast.Assign) else [n.target]
+                        val = n.value
+                        for t in targets:
+                            if isinstance(t, ast.Attribute) and t.attr == field and isinstance(t.value, ast.Name) and t.value.id == "self":
+                                if val is not None and not (isinstance(val, ast.Constant) and val.value is None):
+                                    return True
+        return False
 
     # ------------------------------------------------------------ lookups
     def obj(self, I, label) -> AObj:
